@@ -9,15 +9,18 @@ def seq_history(r, hid):
     ks = r.sample([0, 1, 2, 3, 4, 5], r.randint(1, 2))
     ts = r.sample(["r0", "r1", "r2"], len(ks))
     ops = [f"T:{t}:{k}" for t, k in zip(ts, ks)]
+    spare = [k for k in [0, 1, 2, 3, 4, 5] if k not in ks]
     for _ in range(r.randint(0, 7)):
         t = r.choice(ts)
         ops.append(("CX:" if r.random() < 0.2 else "C:") + t)
         if r.random() < 0.15: ops.append(f"I:{r.choice(['r3','r4'])}:raw:{r.randint(0,3)}")
+        # another counted fake installed AFTER calls were made to the first ones (their counts must be kept)
+        if r.random() < 0.2 and spare: k2 = spare.pop(); t2 = r.choice(["r3", "r4"]); ops.append(f"T:{t2}:{k2}"); ts = ts + [t2] if t2 not in ts else ts
     return f"{hid} r0,r1,r2,r3,r4,fk0,fk1,fk2,fk3 " + ",".join(ops), [ops]
 
 def run(res, tier, seed, replay):
     res.corr_diffs = []
-    res.cov["rule"] = ("real: (a) sequential scripts in one lifetime: 1-2 counted fakes (N in 0..3, with and without `when`), 0-7 calls interleaving matching and non-matching arguments, compared per call and at scope exit with the extracted "
+    res.cov["rule"] = ("real: (a) sequential scripts in one lifetime: 1-2 counted fakes (N in 0..3, with and without `when`), 0-7 calls interleaving matching and non-matching arguments, further (counted and plain) installations made AFTER some calls, compared per call and at scope exit with the extracted "
                        "lifetime machine and with the counting rule; (a') a counted lifetime that follows one which absorbed calls and was left by a panic (user panic, rejected or over-budget call); (b) concurrent: for N in {0,1,2,3,7,64}, k in 0..N+2 matching calls plus 0-3 non-matching ones split over 1-16 threads released by a barrier, each case in a forked child: "
                        "admitted = min(k,N), over-called = k-admitted, rejected = non-matching, exit panics iff k != N naming N and k; the extracted Counter model is run on a random schedule of the same calls; "
                        "(c) churn: 4-16 threads each running hundreds of COMPLETE lifetimes through one fake!(.., times: N) line (the guard serialises them; while one verifies and lets go the others wait in new(), install and reset): every scope must report exactly its own calls; "
